@@ -221,9 +221,18 @@ func (p *Proxy) call(ctx context.Context, m *GoMethod, args ...Object) Object {
 		return Nil
 	}
 	for _, errIndex := range m.errorIndices {
-		errObj := outputs[errIndex].Interface()
-		if errObj != nil {
-			return NewError(errObj.(error))
+		output := outputs[errIndex]
+		// A result of a concrete pointer type that implements error is nil
+		// when the pointer is: in an interface it would no longer compare
+		// equal to nil
+		switch output.Kind() {
+		case reflect.Ptr, reflect.Interface, reflect.Map, reflect.Slice, reflect.Func, reflect.Chan:
+			if output.IsNil() {
+				continue
+			}
+		}
+		if err, ok := output.Interface().(error); ok && err != nil {
+			return NewError(err)
 		}
 	}
 	outputCount := len(outputs) - len(m.errorIndices)
